@@ -11,3 +11,36 @@ pub unsafe fn noop_dealloc(_p: core::ptr::NonNull<u8>, _l: core::alloc::Layout) 
 pub fn any_bool() -> bool {
     vshim::any_bool()
 }
+
+/// Native playback builds (`cargo kani playback` = a test build) never free:
+/// the Kani runs virtualise frees (dealloc stub) so that a use after the
+/// *logical* release can be observed; the native replay must see the same.
+#[cfg(test)]
+mod leaky {
+    use std::alloc::{GlobalAlloc, Layout, System};
+    pub struct Leaky;
+    unsafe impl GlobalAlloc for Leaky {
+        unsafe fn alloc(&self, l: Layout) -> *mut u8 {
+            System.alloc(l)
+        }
+        unsafe fn dealloc(&self, _p: *mut u8, _l: Layout) {}
+    }
+    #[global_allocator]
+    static A: Leaky = Leaky;
+}
+
+/// Verdict of a Lal-Reps harness.  First the sound one: an error counts as soon
+/// as the guessed prefix up to its round is realisable.  Then, under full
+/// consistency of all rounds, the same errors again: a counterexample to these
+/// is a complete real schedule and replays natively without junk.
+#[macro_export]
+macro_rules! lr_verdict {
+    ($pid:literal, $( ($bit:expr, $msg:literal) ),* $(,)?) => {{
+        let bad = $crate::common::vshim::lr_violation();
+        let e = $crate::common::vshim::errors();
+        $( assert!(!(bad && e & $bit != 0), concat!($pid, ": ", $msg)); )*
+        assert!(!bad, concat!($pid, ": another error flag is set (see shim error codes)"));
+        kani::assume($crate::common::vshim::consistent());
+        $( assert!(e & $bit == 0, concat!($pid, ": [replayable] ", $msg)); )*
+    }};
+}
